@@ -313,18 +313,28 @@ def run(plan, ch, want_log=False):
     # ------------- nothing that reached a job's report socket is lost inside the gateway: what it processed is what was
     # delivered, in that order, at least up to the job's shutdown notice (after which the socket is no longer polled)
     if end == "quiescent":
-        for addr, dl in delivered.items():
-            got = [fr for seq, a, fr in K.net.recvlog if a == addr]
-            upto = len(dl)
-            for i, fr in enumerate(dl):
-                try:
-                    if deserialize(fr[0]).current_status == JobProgressShutdown:
-                        upto = i + 1
-                        break
-                except Exception:
-                    pass
-            if got != dl[:len(got)] or len(got) < upto:
-                viol.append(("C18", "report_delivered_to_gateway_never_processed", dict(addr=addr, delivered=len(dl), processed=len(got), must=upto)))
+        def jid_of(fr):
+            try:
+                return deserialize(fr[0]).job_id
+            except Exception:
+                return None
+        for addr, dl_all in delivered.items():
+            got_all = [fr for seq, a, fr in K.net.recvlog if a == addr]
+            # per job (a report names its job; several jobs may share one report address): everything delivered for the job up to
+            # and including its own shutdown notice must have been read, in that order
+            for jid in sorted({jid_of(fr) for fr in dl_all} - {None}):
+                dl = [fr for fr in dl_all if jid_of(fr) == jid]
+                got = [fr for fr in got_all if jid_of(fr) == jid]
+                upto = len(dl)
+                for i, fr in enumerate(dl):
+                    try:
+                        if deserialize(fr[0]).current_status == JobProgressShutdown:
+                            upto = i + 1
+                            break
+                    except Exception:
+                        pass
+                if got != dl[:len(got)] or len(got) < upto:
+                    viol.append(("C18", "report_delivered_to_gateway_never_processed", dict(addr=addr, job=jid, delivered=len(dl), processed=len(got), must=upto)))
     for n_, e, tb in K.crashes:
         viol.append(("C18", "gateway_or_client_crashed", (n_, e)))
     if end != "quiescent":
